@@ -194,7 +194,14 @@ namespace TAO_PEGTL_NAMESPACE
          const std::size_t verif_requested = ( std::min )( buffer_free_after_end(), ( std::max )( amount - buffer_occupied(), Chunk ) );
          const char* const verif_end = m_end;
 #endif
-         m_end += m_reader( m_end, ( std::min )( buffer_free_after_end(), ( std::max )( amount - buffer_occupied(), Chunk ) ) );
+         // A reader may return fewer bytes than requested; only zero means end of input.
+         while( buffer_occupied() < amount ) {
+            const std::size_t r = m_reader( m_end, ( std::min )( buffer_free_after_end(), ( std::max )( amount - buffer_occupied(), Chunk ) ) );
+            if( r == 0 ) {
+               break;
+            }
+            m_end += r;
+         }
 #if defined( TAO_PEGTL_VERIF )
          if( internal::verif::hooks.buffer_read != nullptr ) {
             internal::verif::hooks.buffer_read( this, verif_requested, std::size_t( m_end - verif_end ) );
